@@ -143,7 +143,7 @@ func main() {
 		}
 		sort.SliceStable(works, func(i, j int) bool { return works[i].price < works[j].price })
 		c.Set("fee_configurations", nCfg)
-		c.Rule = fmt.Sprintf("full product: minGasPrice%v x modifier%v x minGasLimit%v x gasPerDataByte%v x 4 flag settings; tx: gasPrice{min,min+1,2min,3min+1,2^63%s; thorough also 5min,1000min,10^6min} x data length%v x value{0,1,10^18; thorough also 7,10^18+1,genesis supply}; balance = value + {-1,0,1,moveFee-1,moveFee,moveFee+1,moveFee+procPrice-1,moveFee+procPrice,moveFee+procPrice+1,moveFee+7*procPrice+3,moveFee+price-1,moveFee+price,2*moveFee+1} and absolute {0,10^30,2^64*price+5,2^200}. Non-trivial: a successful estimate strictly above the move-balance gas with the modifier flag on and modifier < 1 (the two-price branch decides).",
+		c.Rule = fmt.Sprintf("full product: minGasPrice%v x modifier%v x minGasLimit%v x gasPerDataByte%v x 4 flag settings; tx: gasPrice{min,min+1,2min,3min+1,2^63%s; thorough also 5min,1000min,10^6min} x data length%v x value{0,1,10^18; thorough also 7,10^18+1,genesis supply}; balance = value + {-1,0,1,moveFee-1,moveFee,moveFee+1,moveFee+procPrice-1,moveFee+procPrice,moveFee+procPrice+1,moveFee+7*procPrice+3,moveFee+price-1,moveFee+price,2*moveFee+1} and absolute {0,10^30,2^64*price+5,2^200}. Non-trivial: a successful estimate strictly above the move-balance gas with the modifier flag on and modifier < 1 (the two-price branch decides). Phase B (estimator.go): the real transactionCostEstimator.ComputeTransactionGasLimit for a request without gas limit, same configurations/prices/data/values, balances {0,1,value,value+1,value+moveFee-1..+1,feeMax/2,value+feeMax/2,feeMax-1..+1,feeMax+value-1..+1,2(feeMax+value),2^200} with feeMax = fee at the block maximum: the gas limit handed to the simulator must be affordable.",
 			minPrices, modifiers, minLimits, perByte, map[bool]string{true: ",2^53+1,2^53+3,2^64-1", false: ""}[*withBigPrices], dataLens)
 		c.Bound = "complete product of the stated alphabets"
 		c.Assumptions = []string{
@@ -251,5 +251,6 @@ func main() {
 				}
 			}
 		})
+		phaseEstimator(c, works, dataLens, values, col)
 	})
 }
